@@ -71,6 +71,9 @@ def run(run, tier, seed, replay=None):
     # the bundle fragment (harness/vp/c01b.py, Corr/C01B.v, Props/C01B.v)
     from . import c01b
     c01b.run_streams(run, tier, seed)
+    # C01E: the pipeline model (coq Model/C01EElab.v) against the implementation on the same designs
+    from . import c01e
+    c01e.run_tie(run, tier, seed, designs, outs)
 
 
 def corpus():
